@@ -3,7 +3,7 @@ PROPS = {
     'C19': dict(
         props_file='Props/C19.v',
         components=['c19'],
-        comp_names={19: 'LogCache over MapLogStore', 1900: 'bare MapLogStore'},
+        comp_names={1019: 'LogCache with a GetLog in flight while the suffix is deleted and rewritten (monitored)', 19: 'LogCache over MapLogStore', 1900: 'bare MapLogStore'},
         rule='op sequences (GetLog/StoreLogs/DeleteRange/FirstIndex/LastIndex with failure bits) run on the real raft.LogCache over the '
              'harness MapLogStore and on the bare MapLogStore; exhaustive over a small alphabet (indices 1..3/4, terms 1..2, cap 1..3, every '
              'failure pattern) followed by a full read-back, plus random long sequences; non-trivial = a GetLog follows a StoreLogs (the ring can answer)',
